@@ -142,6 +142,25 @@ func (w *World) GenOp(ctx sdk.Context, p PoolInfo) Op {
 		}
 		return Op{Kind: "create", Sender: sender, Lower: -10, Upper: 10, Base: r.LogUniform(10), Quote: big.NewInt(0), MinBase: big.NewInt(0), MinQuote: big.NewInt(0), Tag: "first-one-sided"}
 	}
+	// the pool has positions but none in range (the price sits in a gap): a new position must not
+	// re-initialise the price; and make such gaps: withdraw the only in-range position while others remain
+	if len(poss) > 0 {
+		var inRange []lptypes.Position
+		for _, q := range poss {
+			if q.LowerTick <= cur && cur < q.UpperTick {
+				inRange = append(inRange, q)
+			}
+		}
+		if len(inRange) == 0 && r.Chance(1, 2) {
+			a := int64(1 + r.Intn(int(sp)))
+			b := int64(1 + r.Intn(int(sp)))
+			return Op{Kind: "create", Sender: sender, Lower: cur - a, Upper: cur + b, Base: r.LogUniform(22), Quote: r.LogUniform(22), MinBase: big.NewInt(0), MinQuote: big.NewInt(0), Tag: "create-in-gap"}
+		}
+		if len(inRange) == 1 && len(poss) >= 2 && r.Chance(1, 10) {
+			q := inRange[0]
+			return Op{Kind: "decrease", Sender: w.userIndex(q.Address), Pid: q.Id, Liq: raw(q.Liquidity), Tag: "decrease-all/leaves-gap"}
+		}
+	}
 	// the price rests exactly on a tick t (a swap ended there): cursor and price then disagree about
 	// which side of t the pool is on when the swap came from above (cursor t-1, price = price(t)).
 	// Change liquidity bounded by t in that state, half of the time.
